@@ -36,15 +36,20 @@ N_true == << "t", "r", "u", "e" >>
 N_false == << "f", "a", "l", "s", "e" >>
 N_env  == << "e", "n", "v" >>
 
-(* the words the compiler's own "is a reserved word" diagnostic covers        *)
-(* (vm.rs reserved_words) - Appendix A; `env` cannot be bound either (C18)    *)
+(* The reserved words of the REFERENCE (reference/_index.md "Reserved words"; the driver of C10 reads  *)
+(* that list on every run and stops if this transcription differs) that reach binding as a name -     *)
+(* true, false, NULL never lex as a name and `env` is refused by the parser (ParserRejects, C18) -     *)
+(* plus `include`, a keyword the list forgets.  Until a `fix:` commit the VM's own list (vm.rs         *)
+(* reserved_words) lacked not, select, reduce and constraint: `let select = 1;` built.                 *)
 Reserved == { << "l", "e", "t" >>, << "m", "o", "d", "u", "l", "e" >>, << "f", "u", "n", "c" >>,
               << "o", "u", "t" >>, << "a", "s", "s", "e", "r", "t" >>, N_self,
               << "i", "m", "p", "o", "r", "t" >>, << "i", "n", "c", "l", "u", "d", "e" >>,
               << "a", "s" >>, << "m", "a", "p" >>, << "f", "i", "l", "t", "e", "r" >>,
               << "c", "o", "n", "v", "e", "r", "t" >>, << "f", "a", "i", "l" >>,
               << "N", "U", "L", "L" >>, << "i", "n" >>, << "i", "s" >>,
-              << "T", "R", "A", "C", "E" >> }
+              << "T", "R", "A", "C", "E" >>,
+              << "n", "o", "t" >>, << "s", "e", "l", "e", "c", "t" >>, << "r", "e", "d", "u", "c", "e" >>,
+              << "c", "o", "n", "s", "t", "r", "a", "i", "n", "t" >> }
 
 (* ---- environments: sequences of [nm, val], later entries shadow ---------- *)
 RECURSIVE Lookup(_, _)
@@ -367,7 +372,8 @@ ArmHolds(v, arm) ==
   ELSE v.t = arm.v.t /\ v = arm.v
 (* does value v pass what was written after `::` (evaluated to c)?  "ok" / "fail" / "unm" *)
 Passes(v, c) ==
-  IF c.t = "con" THEN (IF ~IsCPrim(v) THEN "unm"
+  IF c.t = "con" THEN (IF c.arms = << >> THEN "ok"         \* the placeholder a constraint statement pre-binds: admits anything
+                       ELSE IF ~IsCPrim(v) THEN "unm"
                        ELSE IF \E j \in 1..Len(c.arms) : ArmHolds(v, c.arms[j]) THEN "ok" ELSE "fail")
   ELSE IF IsCPrim(c) /\ c.t = v.t THEN "ok"        \* an example of the same primitive type: nothing to check
   ELSE "unm"
@@ -516,8 +522,18 @@ ConFails(v, c) == IF IsUnm(c) THEN "unm" ELSE IF Bad(c) THEN "fail" ELSE Passes(
 Exec(stmts, rho, selfs) ==
   IF stmts = << >> THEN [k |-> "ok", env |-> rho]
   ELSE LET st == Head(stmts)
-           v  == EvalE(st.x, rho, selfs)
-       IN IF IsUnm(v) THEN [k |-> "unm"]
+       IN IF st.s = "cstmt"
+            (* `constraint name = c;` (translate.rs Statement::Constraint): the name is bound first - to a     *)
+            (* placeholder that admits anything, so that c may mention it - then c is evaluated and the name   *)
+            (* is bound to it for good.  A name that exists already (or a reserved word) is an error.          *)
+            THEN (IF st.nm \in Reserved \/ st.nm = N_env \/ Bound(rho, st.nm) THEN [k |-> "fail", at |-> Len(rho)]
+                  ELSE LET c == EvalE(st.x, Append(rho, Fld(st.nm, ConV(<< >>))), selfs)
+                       IN IF IsUnm(c) THEN [k |-> "unm"]
+                          ELSE IF Bad(c) THEN [k |-> "fail", at |-> Len(rho)]
+                          ELSE Exec(Tail(stmts), Append(rho, Fld(st.nm, c)), selfs))
+          ELSE
+          LET v  == EvalE(st.x, rho, selfs)
+          IN IF IsUnm(v) THEN [k |-> "unm"]
           ELSE IF Bad(v) THEN [k |-> "fail", at |-> Len(rho)]
           ELSE IF st.s = "expr" THEN Exec(Tail(stmts), rho, selfs)
           ELSE IF st.s = "clet" /\ ConFails(v, EvalE(st.con, rho, selfs)) # "ok"
